@@ -24,7 +24,7 @@ TECHNIQUE = ('Hypothesis-generated packages of modules with by-construction outc
              'result lines), with the generator inventory as tie-breaker; exit status and executed-statement trace compared')
 LEVEL_TEXT = ("Generated packages of 1-12 modules, each with 1-8 documented functions and methods whose doctests have "
               "by-construction outcomes (pass, wrong output, exception, failure in the last statement, all skipped, unmet "
-              "REQUIRES, partly skipped, expected exception, comment only, force-disabled by each of the five patterns, plus "
+              "REQUIRES, every statement skipped after a harmless block directive, partly skipped, expected exception, comment only, force-disabled by each of the five patterns, plus "
               "doctests whose verdict depends on ELLIPSIS, NORMALIZE_WHITESPACE or IGNORE_WHITESPACE) are run by both front "
               "ends in subprocesses with the same style (auto, google, freeform) and the same default options (none, +SKIP, "
               "-ELLIPSIS, +IGNORE_WHITESPACE, -NORMALIZE_WHITESPACE, and pairs): the identifier sets must be equal once the "
@@ -263,8 +263,8 @@ def hyp_packages(ctx, n_examples, max_modules):
 
 def fixed(ctx):
     """every style x option set on one module that holds every kind (the option-flipping ones included)"""
-    kinds = ['pass', 'fail_out', 'fail_exc', 'fail_last', 'all_skipped', 'req_unmet', 'partly', 'expected_exc', 'comment_only',
-             'disabled', 'disabled', 'disabled', 'disabled', 'disabled', 'needs_ellipsis', 'needs_nw', 'needs_iw']
+    kinds = ['pass', 'fail_out', 'fail_exc', 'fail_last', 'all_skipped', 'req_unmet', 'inline_skipped_after_directive',
+             'req_after_directive', 'partly', 'expected_exc', 'comment_only', 'disabled', 'disabled', 'disabled', 'disabled', 'disabled', 'needs_ellipsis', 'needs_nw', 'needs_iw']
     funcs = []
     for i, k in enumerate(kinds):
         funcs.append({'name': 'f{}'.format(i), 'layout': 'google' if i % 3 else 'bare', 'in_class': i % 4 == 3,
